@@ -1,0 +1,71 @@
+//go:build verif
+
+package encode
+
+// Verification hooks, compiled only with the build tag "verif". Add-only:
+// thin wrappers over the unexported number encoders and a read-only window
+// on the Encoder's state. Nothing here changes behaviour.
+
+func VerifEncodeNatural(u uint32) []byte {
+	var b buffer
+	b.encodeNatural(u)
+	return b
+}
+
+func VerifEncodeReal(f float32) []byte {
+	var b buffer
+	b.encodeReal(f)
+	return b
+}
+
+func VerifEncodeCoordinate(f float32) []byte {
+	var b buffer
+	b.encodeCoordinate(f)
+	return b
+}
+
+func VerifEncodeZeroToOne(f float32) []byte {
+	var b buffer
+	b.encodeZeroToOne(f)
+	return b
+}
+
+func VerifEncodeAngle(f float32) []byte {
+	var b buffer
+	b.encodeAngle(f)
+	return b
+}
+
+// VerifState is a projection of the Encoder's private state.
+type VerifState struct {
+	Mode         uint8 // 0 initial, 1 styling, 2 drawing
+	HasErr       bool
+	Err          string
+	DrawOp       byte
+	NPending     int
+	HiResLatched bool
+	CSel, NSel   uint8
+	BufLen       int
+	Lod0, Lod1   float32
+}
+
+// VerifState reads the Encoder's state without the side effects that the
+// public accessors have on a zero-value Encoder.
+func (e *Encoder) VerifState() VerifState {
+	s := VerifState{
+		Mode:         uint8(e.mode),
+		HasErr:       e.err != nil,
+		DrawOp:       e.drawOp,
+		NPending:     len(e.drawArgs),
+		HiResLatched: e.highResolutionCoordinates,
+		CSel:         e.cSel,
+		NSel:         e.nSel,
+		BufLen:       len(e.buf),
+		Lod0:         e.lod0,
+		Lod1:         e.lod1,
+	}
+	if e.err != nil {
+		s.Err = e.err.Error()
+	}
+	return s
+}
